@@ -110,13 +110,14 @@ static void try_image(const uint8_t* img, size_t n, const char* desc) {
 }
 
 /* ---- seeds --------------------------------------------------------------------------- */
-#define NSEED 12
+#define NSEED 13
 static int make_seed(int k, ref_buf* img) {
     rfile_t f; memset(&f, 0, sizeof f); static ref_coldata cols[16]; int np; static ref_stats st1, st2;
     f.ncols = 2; f.N = 6; f.nrg = 1; f.crc = true; f.dict_offset_present = true; f.fl.created_by = "seed";
     f.col[0].ptype = PT_INT32; f.col[1].ptype = PT_BYTE_ARRAY; f.col[1].opt = 1; f.mask[1] = 0x12; f.npages[0] = 2; f.page_levels[0][0] = 4; f.page_levels[0][1] = 2;
     if (k >= 100) f.crc = false;                     /* body-mutation seeds: no page checksums, uncompressed, so that the decoders see the changed bytes */
-    switch (k >= 100 ? (k == 100 ? 0 : k == 101 ? 201 : 5) : k) {
+    if (k >= 103) { f.level_form = REF_H_BP_ONLY; f.index_form = REF_H_MIXED; f.col[0].opt = 1; f.mask[0] = 0x0a; }      /* 103, 104: seeds 100, 101 with bit-packed level groups, mixed index runs and a nullable first column */
+    switch (k >= 100 ? (k == 100 || k == 103 ? 0 : k == 101 || k == 104 ? 201 : 5) : k) {
     case 0: break;
     case 201: f.enc[0] = ENC_RLE_DICT; f.enc[1] = ENC_RLE_DICT; break;
     case 1: f.enc[0] = ENC_RLE_DICT; f.enc[1] = ENC_RLE_DICT; f.codec = CODEC_SNAPPY; break;
@@ -130,6 +131,7 @@ static int make_seed(int k, ref_buf* img) {
     case 8: { hist_t h; memset(&h, 0, sizeof h); h.ncols = 3; h.cols[0] = TBL_KINDS[1]; h.cols[1] = TBL_KINDS[5]; h.cols[2] = TBL_KINDS[3]; h.cols[0].name = "x"; h.cols[1].name = "y"; h.cols[2].name = "z"; h.N = 7; h.nrg = 3; h.rg_rows[0] = 3; h.rg_rows[1] = 2; h.rg_rows[2] = 2; h.mask[0] = 0x12; h.mask[1] = 0x41; h.mask[2] = 0x08; h.comp[0] = 0x2; h.page_sel = 1;
               uint8_t* im; size_t len; carquet_status_t st; const char* where; if (tbl_write(&h, &im, &len, &st, &where)) return -1; ref_buf_put(img, im, len); free(im); return 0; }
     case 9: f.ncols = 4; f.col[0].ptype = PT_BOOLEAN; f.col[1].ptype = PT_INT96; f.col[1].opt = 0; f.mask[1] = 0; f.col[2].ptype = PT_FLOAT; f.col[2].opt = 1; f.mask[2] = 0x9; f.col[3].ptype = PT_DOUBLE; f.npages[0] = 0; break;
+    case 12: f.enc[0] = ENC_RLE_DICT; f.enc[1] = ENC_PLAIN_DICT; f.level_form = REF_H_BP_ONLY; f.index_form = REF_H_MIXED; f.col[0].opt = 1; f.mask[0] = 0x0a; f.npages[1] = 3; f.page_levels[1][0] = 1; f.page_levels[1][1] = 3; f.page_levels[1][2] = 2; break;      /* bit-packed levels, mixed dictionary-index runs, both columns nullable */
     case 10: f.fl.unknown_kind = 14; f.fl.tform.long_field_headers = true; f.fl.tform.long_list_headers = true; f.fl.kv = true; break;
     default: f.enc[0] = ENC_PLAIN_DICT; f.enc[1] = ENC_RLE_DICT; f.nrg = 2; f.dict_offset_present = false; f.data_offset_at_dict = true; f.codec = CODEC_SNAPPY; break;
     }
@@ -279,7 +281,7 @@ static void enumerate(void) {
         ref_buf_free(&img); ref_arena_free(&RA);
     }
     mc_stage("page-bodies.every-u32-window.length-prefix-values");
-    for (int k = 100; k <= 102; k++) {
+    for (int k = 100; k <= 104; k++) {
         ref_buf img; ref_buf_init(&img); if (make_seed(k, &img)) mc_harness_error("seed %d cannot be built", k);
         ref_file rf; if (ref_pq_read(&RA, img.p, img.n, &rf, 0)) mc_harness_error("seed %d is rejected by the reference reader: %s", k, rf.err);
         char seed[24]; snprintf(seed, sizeof seed, "seed%d", k); g_salt = 0xc04 + (uint64_t)k * 7 + 9; uint8_t* m = malloc(img.n);
